@@ -15,7 +15,7 @@ def flags : Flags :=
     lineContainsChecksZ := true,
     projectAxis1 := true,
     fromShapelyPassesZ := true,
-    compTrueStructural := false }
+    compTrueStructural := true }
 
 /-- the `isinstance` chains of every class's intersect / union / difference / intersects, in source order -/
 def clsTable : Kind → Op → Option (List Clause)
